@@ -192,6 +192,7 @@ package wal
 //@ -- and new tail seg: create the file, install writer and reader in s
 //@ func postCommit(s, seg)
 //@   requires[C13.file-created-after-commit] traced("call:types.MetaStore.CommitState")
+//@   requires[C03.no-file-ahead-of-metadata] traced("call:types.MetaStore.CommitState")
 //@   requires s != nil && PendingTail(s) && smmax(s.segments) == seg.BaseIndex && SameSeg(seg, smget(s.segments, seg.BaseIndex))
 //@   assigns s.tail, s.segments, g_open
 //@   ensures[C03.post-wf] result == nil ==> WFS(s) && s.tail.last == 0 && s.tail.base == seg.BaseIndex && !s.tail.sealed
